@@ -136,6 +136,18 @@ def main(run):
         if cfg["storage"][0] == "tree":       # (storage contents are compared through get_data(), which a TreeStorage does not offer)
             cfg["storage"] = ("interval", 3, True)
         scenarios.append(("incr", cfg, rnd.randrange(2 ** 31)))
+    if run.shard[0] % 4 in (0, 1):
+        # one LONG stream per run (hundreds of calls on one explainer): faults are enumerated only at calls around 40 (= 20 / alpha), around
+        # 256 and at a few random calls; every other call runs normally.  Bounded journals, periodic checkpoints and the like live here.
+        from ..harness import make_long
+        from ..qnum import Q as _Q
+        cfg = gen_cfg(rnd, "sage" if run.shard[0] % 4 == 0 else "pfi", exact=True)
+        make_long(cfg, rnd, 300)
+        cfg.update(dyn=True, alpha=_Q(1, 2), model=rnd.choice(["multi", "grow"]), loss="hash", manual_updates=False, checkpoint=False,
+                   frozen_first=0, _long=True)
+        if cfg["imputer"] in ("background",):
+            cfg["imputer"] = "joint"
+        scenarios.append(("incr", cfg, rnd.randrange(2 ** 31)))
     for i in range(N_BATCH[run.tier]):
         for kind in ("batch", "interval"):
             scenarios.append((kind, None, rnd.randrange(2 ** 31)))
@@ -149,11 +161,19 @@ def main(run):
         is_sage = cfgd["explainer"] == "sage" and cfgd.get("exact", True)
         run.count("configs")
         nsteps = STREAM[run.tier] if what == "incr" else (5 if seed % 3 else 14)     # some batch / interval runs over >= 10 stored samples
+        long_run = what == "incr" and cfgd.get("_long")
+        if long_run:
+            nsteps = cfgd["steps"]
+            probe = set(range(38, 46)) | set(range(253, 260)) | set(rnd.sample(range(2, nsteps), 5))
+            run.count("long-stream-configs")
         stop = False
         for t in range(nsteps):
             x, y = sc.next_obs()
             kw = sc.call_kwargs() if what == "incr" else {}
             pre = rng_state()
+            if long_run and t not in probe:
+                call(sc, x, y, kw)
+                continue
             # fault-free twin: count callbacks
             twin = copy.deepcopy(sc)
             call(twin, x, y, kw)
